@@ -109,6 +109,12 @@ Proof.
   f_equal. f_equal. unfold in_range in Ha. change (2 ^ 16) with 65536 in Ha. dlia.
 Qed.
 
+Lemma bytes8_unpairs z : Forall (in_range 16) z -> bytes_of 8 (unpairs z) = bytes_of 16 z.
+Proof.
+  intros Fz. rewrite <- (lanes8_bytes16 z Fz). rewrite lanes_of_8. apply bytes_of_8.
+  eapply Forall_impl; [|apply bytes_of_bytes]. intros b Hb. apply in_range_8_byte. exact Hb.
+Qed.
+
 (* byte blend of 16-bit words under the mask 0xFF00 in every word: even byte from [e], odd byte from [o] *)
 Lemma blendv_words e o : length e = length o -> Forall (in_range 16) o ->
   vblendv_epi8 (bytes_of 16 e) (bytes_of 16 o) (bytes_of 16 (repeat 65280 (length e))) = bytes_of 16 (map2 blend_odd e o).
@@ -169,9 +175,9 @@ Lemma mul8_sequence (blend : list Z -> list Z -> list Z) x y :
   length x = length y -> Forall (in_range 8) x -> Forall (in_range 8) y -> Nat.even (length x) = true ->
   (forall e o, length e = length (pairs x) -> length o = length (pairs x) -> Forall (in_range 16) o ->
                blend (bytes_of 16 e) (bytes_of 16 o) = bytes_of 16 (map2 blend_odd e o)) ->
-  lanes_of 8 (blend (vmullo 16 (bytes_of 8 x) (bytes_of 8 y))
-                    (vslli 16 8 (vmullo 16 (vsrai 16 8 (bytes_of 8 x)) (vsrai 16 8 (bytes_of 8 y)))))
-  = mul8 x y.
+  blend (vmullo 16 (bytes_of 8 x) (bytes_of 8 y))
+        (vslli 16 8 (vmullo 16 (vsrai 16 8 (bytes_of 8 x)) (vsrai 16 8 (bytes_of 8 y))))
+  = bytes_of 8 (mul8 x y).
 Proof.
   intros Hl Fx Fy Hev Hblend.
   assert (Hevy : Nat.even (length y) = true) by (rewrite <- Hl; exact Hev).
@@ -185,7 +191,7 @@ Proof.
   rewrite !(vlift2_bytes 16 2) by (auto with wk; apply Forall16_map; apply srai16_range).
   rewrite (vlift1_bytes 16 2) by (auto with wk; apply Forall_map2; apply mul16_range).
   rewrite Hblend.
-  - rewrite mul8_fusion. rewrite lanes8_bytes16; [reflexivity|].
+  - rewrite mul8_fusion. unfold mul8. symmetry. apply bytes8_unpairs.
     apply Forall_map2. intros a b. unfold mul8_word, blend_odd.
     pose proof (in_range_wrap 16 (mullo16 (srai16_8 a) (srai16_8 b) * 256) ltac:(lia)) as Ho.
     fold (slli16_8 (mullo16 (srai16_8 a) (srai16_8 b))) in Ho.
@@ -407,9 +413,9 @@ Lemma mul64_sequence X Y :
   let bX := bytes_of 64 X in
   let bY := bytes_of 64 Y in
   let C := vmullo 32 bX (vshuffle_epi32 177 bY) in
-  lanes_of 64 (vadd 64 (vmul_epu32 bX bY)
-                       (vand (vadd 32 (vslli 64 32 C) C) (bytes_of 64 (repeat 18446744069414584320 (length X)))))
-  = map2 mul64_emul X Y.
+  vadd 64 (vmul_epu32 bX bY)
+          (vand (vadd 32 (vslli 64 32 C) C) (bytes_of 64 (repeat 18446744069414584320 (length X))))
+  = bytes_of 64 (map2 mul64_emul X Y).
 Proof.
   intros Hl FX FY Hev. cbv zeta.
   assert (Hi32m : forall a b, in_range 32 (i_mul 32 a b)) by (intros; apply in_range_wrap; lia).
@@ -427,10 +433,9 @@ Proof.
     replace (length X) with (length S) by (rewrite map2_length; rewrite map_length; [exact LC | reflexivity])
   end.
   rewrite vand_hi_on_64.
-  rewrite (lanes_vlift2 64 8);
-    [ | auto with wk | apply Forall_map2; apply mul_epu32_range | apply Forall_map'; apply and_hi_range
-      | intros; apply in_range_wrap; lia ].
-  subst C. rewrite mul64_fusion.
+  rewrite (vlift2_bytes 64 8);
+    [ | auto with wk | apply Forall_map2; apply mul_epu32_range | apply Forall_map'; apply and_hi_range ].
+  subst C. rewrite mul64_fusion. f_equal.
   apply (map2_ext_in (in_range 64) (in_range 64)); [|assumption|assumption].
   intros a b Ha Hb. apply mul64_word_correct; assumption.
 Qed.
@@ -519,12 +524,11 @@ Qed.
 Lemma blend_cmp_on_64 A B P Q :
   length A = length B -> length A = length P -> length P = length Q ->
   Forall (in_range 64) P -> Forall (in_range 64) Q ->
-  lanes_of 64 (vblendv_epi8 (bytes_of 64 A) (bytes_of 64 B) (vcmpgt 64 (bytes_of 64 P) (bytes_of 64 Q)))
-  = map3 blendv64 A B (map2 cmpgt64 P Q).
+  vblendv_epi8 (bytes_of 64 A) (bytes_of 64 B) (vcmpgt 64 (bytes_of 64 P) (bytes_of 64 Q))
+  = bytes_of 64 (map3 blendv64 A B (map2 cmpgt64 P Q)).
 Proof.
   intros H1 H2 H3 FP FQ. unfold vcmpgt. rewrite (vlift2_bytes 64 8) by auto with wk.
-  rewrite vblendv_on_64 by (try assumption; rewrite map2_length; lia).
-  apply (lanes_bytes 64 8); [auto with wk|]. apply Forall_map3. intros. apply blendv64_range.
+  rewrite vblendv_on_64 by (try assumption; rewrite map2_length; lia). reflexivity.
 Qed.
 
 Lemma vxor_sign_on_64 X : Forall (in_range 64) X ->
@@ -553,24 +557,24 @@ Section MaxMin64.
   Let bY := bytes_of 64 Y.
   Let sb := bytes_of 64 (repeat 9223372036854775808 (length X)).
 
-  Lemma max64_sequence_s : lanes_of 64 (vblendv_epi8 bY bX (vcmpgt 64 bX bY)) = map2 (max64_emul true) X Y.
-  Proof. subst bX bY. rewrite blend_cmp_on_64 by (auto; lia). apply max64_fusion_s. Qed.
-  Lemma min64_sequence_s : lanes_of 64 (vblendv_epi8 bX bY (vcmpgt 64 bX bY)) = map2 (min64_emul true) X Y.
-  Proof. subst bX bY. rewrite blend_cmp_on_64 by (auto; lia). apply min64_fusion_s. Qed.
+  Lemma max64_sequence_s : vblendv_epi8 bY bX (vcmpgt 64 bX bY) = bytes_of 64 (map2 (max64_emul true) X Y).
+  Proof. subst bX bY. rewrite blend_cmp_on_64 by (auto; lia). f_equal. apply max64_fusion_s. Qed.
+  Lemma min64_sequence_s : vblendv_epi8 bX bY (vcmpgt 64 bX bY) = bytes_of 64 (map2 (min64_emul true) X Y).
+  Proof. subst bX bY. rewrite blend_cmp_on_64 by (auto; lia). f_equal. apply min64_fusion_s. Qed.
 
   Lemma Fxor l : Forall (in_range 64) l -> Forall (in_range 64) (map (fun x => Z.lxor x sign_bit64) l).
   Proof. induction 1; cbn [map]; constructor; auto using lxor_sign_range. Qed.
 
   Lemma max64_sequence_u :
-    lanes_of 64 (vblendv_epi8 bY bX (vcmpgt 64 (vxor bX sb) (vxor bY sb))) = map2 (max64_emul false) X Y.
+    vblendv_epi8 bY bX (vcmpgt 64 (vxor bX sb) (vxor bY sb)) = bytes_of 64 (map2 (max64_emul false) X Y).
   Proof.
     subst bX bY sb. rewrite (vxor_sign_on_64 X FX). rewrite Hl at 1. rewrite (vxor_sign_on_64 Y FY).
-    rewrite blend_cmp_on_64 by (rewrite ?map_length; auto using Fxor; lia). apply max64_fusion_u.
+    rewrite blend_cmp_on_64 by (rewrite ?map_length; auto using Fxor; lia). f_equal. apply max64_fusion_u.
   Qed.
   Lemma min64_sequence_u :
-    lanes_of 64 (vblendv_epi8 bX bY (vcmpgt 64 (vxor bX sb) (vxor bY sb))) = map2 (min64_emul false) X Y.
+    vblendv_epi8 bX bY (vcmpgt 64 (vxor bX sb) (vxor bY sb)) = bytes_of 64 (map2 (min64_emul false) X Y).
   Proof.
     subst bX bY sb. rewrite (vxor_sign_on_64 X FX). rewrite Hl at 1. rewrite (vxor_sign_on_64 Y FY).
-    rewrite blend_cmp_on_64 by (rewrite ?map_length; auto using Fxor; lia). apply min64_fusion_u.
+    rewrite blend_cmp_on_64 by (rewrite ?map_length; auto using Fxor; lia). f_equal. apply min64_fusion_u.
   Qed.
 End MaxMin64.
